@@ -150,6 +150,20 @@ func ruleSANIT(w *World, r *Report) {
 		if _, isField := stripConv(name).(*ssa.Field); isField {
 			nameIsLoad = true
 		}
+		// the function may be handed the name itself (a string parameter that every caller takes from
+		// an entry's filename field): then the joined value must be that very parameter
+		if prm, isPrm := stripConv(name).(*ssa.Parameter); isPrm && prm == fn.Params[1] {
+			allFromField, nSites := true, 0
+			for _, cs := range w.callSites(fn) {
+				nSites++
+				if len(cs.Common().Args) < 2 || !strings.HasSuffix(deepPath(stripConv(cs.Common().Args[1])).Path, ".filename") {
+					allFromField = false
+				}
+			}
+			if allFromField && nSites > 0 {
+				nameOK, nameIsLoad = true, true
+			}
+		}
 		switch {
 		case !baseOK:
 			r.bad("SANIT", key, w.ipos(joins[0]), "the base directory is not filepath.Dir of the decoder's index path")
@@ -237,22 +251,47 @@ func ruleSANIT(w *World, r *Report) {
 				n5++
 				key := fmt.Sprintf("S5:newEncoder:relpath-store#%d", n5-1)
 				var rel *ssa.Call
-				if ex, isEx := stripConv(st.Val).(*ssa.Extract); isEx {
+				relVal := stripConv(st.Val)
+				factBlk := b
+				isBase := func(v ssa.Value) bool { return len(fn.Params) >= 3 && stripConv(v) == ssa.Value(fn.Params[2]) }
+				if ex, isEx := relVal.(*ssa.Extract); isEx {
 					rel = callOf(ex.Tuple, "path/filepath.Rel")
+					// the computation may live in a private helper `rel, err := relPathInBase(basePath, path)`:
+					// judge the helper's single success return, its base parameter standing for the argument
+					if hc, isCall := ex.Tuple.(*ssa.Call); rel == nil && isCall {
+						if h := hc.Call.StaticCallee(); h != nil && len(h.Blocks) > 0 && w.inModule(h) {
+							if rets := successReturns(h); len(rets) == 1 && ex.Index < len(rets[0].Results) {
+								if ex2, ok := stripConv(rets[0].Results[ex.Index]).(*ssa.Extract); ok {
+									if rc := callOf(ex2.Tuple, "path/filepath.Rel"); rc != nil {
+										rel, relVal, factBlk = rc, ex2, rets[0].Block()
+										outer := isBase
+										isBase = func(v ssa.Value) bool {
+											for j, prm := range h.Params {
+												if stripConv(v) == ssa.Value(prm) && j < len(hc.Call.Args) {
+													return outer(hc.Call.Args[j])
+												}
+											}
+											return false
+										}
+									}
+								}
+							}
+						}
+					}
 				}
 				if rel == nil {
 					r.bad("SANIT", key, w.ipos(st), "the stored relative path is not the result of filepath.Rel(basePath, path)")
 					continue
 				}
-				baseOK := len(fn.Params) >= 3 && stripConv(rel.Call.Args[0]) == ssa.Value(fn.Params[2])
+				baseOK := isBase(rel.Call.Args[0])
 				dotOK := false
-				for _, c := range cmpsAt(b) {
+				for _, c := range cmpsAt(factBlk) {
 					if c.Y == nil || c.Op != token.NEQ {
 						continue
 					}
 					for _, pr := range [][2]ssa.Value{{c.X, c.Y}, {c.Y, c.X}} {
 						if v, isC := constInt(pr[1]); isC && v == '.' {
-							if sx, si, isL := stringIndex(pr[0]); isL && stripConv(sx) == stripConv(st.Val) {
+							if sx, si, isL := stringIndex(pr[0]); isL && stripConv(sx) == relVal {
 								if z, isZ := constInt(si); isZ && z == 0 {
 									dotOK = true
 								}
